@@ -221,11 +221,12 @@ def run(chk, model_ok=True):
     # unauthenticated reply for the empty user is not for this session
     from props import c13
     for mode in ("sync", "async"):
-        for auth in (1, 2):
-            # (a user with a non-empty name: for the empty name the forged reply would match and fall under D12)
+        for auth, drop in ((1, (0,)), (2, (0, 1)), (1, (1,)), (2, (0,))):
+            # (a user with a non-empty name: for the empty name the forged reply would match and fall under D12;
+            #  every loss pattern is tried with both clients: which probe is lost decides what state is left behind)
             peer = e2e.Peer("v3", auth=auth, priv=rng.choice([0, 1, 2]), user="alice", auth_kt="localized", priv_kt="localized")
             n += 1
-            r = lossy_then_forged(mode, peer, rng.choice([(0,), (0, 1), (1,)]))
+            r = lossy_then_forged(mode, peer, drop)
             if r[0] == "ok":
                 fail(f"{mode} client ({peer.label}): after a discovery with lost probes, an unauthenticated reply with an empty user "
                      f"name was delivered as {r[1]!r}", f"# {mode} {peer.label} lossy discovery + forged reply")
